@@ -731,6 +731,35 @@ pub fn run(tier: &Tier) -> i32 {
     // (a) library level: blank-line layouts (comment stripping is the driver's job)
     let lib_work: Vec<(usize, Layout)> = (0..ts.len()).flat_map(|i| layouts(false).into_iter().chain(extra_layouts()).map(move |l| (i, l))).collect();
     lib_work.par_iter().for_each(|(i, l)| check_source_map(rep, c, &st, &ts[*i], l));
+    // (a') for EVERY instruction shape of the catalog: the source map stays in step with the emitted code
+    // (one entry per emitted instruction, none left over), so the instruction after it maps to its own line
+    let shapes_checked = AtomicU64::new(0);
+    {
+        let cat = crate::catalog::catalog(&crate::catalog::CatOpts { disps: vec![2], all_regs: true });
+        cat.par_iter().for_each(|i| {
+            let line = render_instr(i);
+            let src = format!("db [3]\nbv: db 0\ndb [2]\nwv: dw 0\ndef fn1 {{\nstc\n}}\nstart:\ntgt:\n{}\ncmc\n", line);
+            let asm = match assemble(&src) {
+                Ok(a) => a,
+                Err(_) => return,
+            };
+            shapes_checked.fetch_add(1, Ordering::Relaxed);
+            c.add_exec(1);
+            let last = asm.code.len() - 1;
+            let cmc_line = src.matches('\n').count(); // the last line
+            let bad = if asm.source_map.len() != asm.code.len() {
+                Some(format!("{} source-map entries for {} emitted instructions {:?}", asm.source_map.len(), asm.code.len(), asm.code))
+            } else {
+                match asm.source_map.get(&last) {
+                    Some(pos) if line_col(&src, *pos).0 == cmc_line => None,
+                    other => Some(format!("the instruction after it ({:?}) maps to {:?} = line {:?}, not to line {}", asm.code[last], other, other.map(|p| line_col(&src, *p).0), cmc_line)),
+                }
+            };
+            if let Some(b) = bad {
+                rep.report(Viol { site: format!("source map / shape {}", i.shape()), field: "line".into(), vars: vec![], got_val: None, expected: "one source-map entry per emitted instruction, each inside the line of its instruction".into(), got: b, case: json!({"src": src}), weight: src.len() as u64 });
+            }
+        });
+    }
     // (b) messages through the binary, all layouts, plain and -i
     let cli_work: Vec<(usize, Layout, bool)> = (0..ts.len()).flat_map(|i| layouts(true).into_iter().chain(extra_layouts()).flat_map(move |l| [(i, l, false), (i, l, true)])).collect();
     cli_work.par_iter().for_each(|(i, l, interp)| check_messages(rep, c, &st, &ts[*i], l, *interp));
@@ -774,8 +803,8 @@ pub fn run(tier: &Tier) -> i32 {
     }
     let mut cov = Coverage::default();
     cov.exhaustive = true;
-    cov.rule = format!("{} templates = 4 item kinds (print, INT 3, divide error, unsupported AH) x 9 placements (after uses of a macro with an empty body, first / middle / last line, inside a procedure defined before or after start, inside a macro body, inside nested macros, macro used inside a procedure) plus two multi-item programs with loops; layouts = {{no filler, blank lines, comment-only lines, mixed}} x {{trailing comments or not}} x {{final newline or not}} (10 layouts), plus CR LF line ends and the whole program on ONE line without a newline. (a) library level: for every emitted instruction the source-map offset must lie in the line of the instruction (macro output: outermost use line; implied ret: closing brace). (b) every template x every layout through the real binary, plain and with -i (every instruction is then preceded by a step message): line numbers and line texts of all messages are matched. (c) diagnostics: for {} token positions: '@' inserted before the token, the token replaced by ')', the file truncated after the token; plus 12 semantic errors at first / middle / last line and 3 data-side errors in all 10 layouts; the position the real Preprocessor reports is cross-checked against the generator-known token offset, and the binary's message must cite that line, column (0- or 1-based, but the same base everywhere) and line text", ts.len(), "all");
-    cov.bounds = json!({"templates": ts.len(), "library_runs": lib_work.len(), "source_map_entries_checked": st.lib_entries.load(Ordering::Relaxed), "message_runs": cli_work.len(), "messages_checked": st.cli_msgs.load(Ordering::Relaxed), "diagnostic_runs": diag.len(), "syntax_diagnostics": total, "reported_exactly_at_corrupted_token": exact, "reported_later_than_corrupted_token": st.diag_later.load(Ordering::Relaxed), "corruptions_leaving_a_valid_program": st.still_valid.load(Ordering::Relaxed), "tier": tier.name()});
+    cov.rule = format!("{} templates = 4 item kinds (print, INT 3, divide error, unsupported AH) x 9 placements (after uses of a macro with an empty body, first / middle / last line, inside a procedure defined before or after start, inside a macro body, inside nested macros, macro used inside a procedure) plus two multi-item programs with loops; layouts = {{no filler, blank lines, comment-only lines, mixed}} x {{trailing comments or not}} x {{final newline or not}} (10 layouts), plus CR LF line ends and the whole program on ONE line without a newline. (a) library level: for every emitted instruction the source-map offset must lie in the line of the instruction (macro output: outermost use line; implied ret: closing brace). (a') for every instruction shape of the syntax.md catalog the source map has exactly one entry per emitted instruction and the instruction after it maps to its own line. (b) every template x every layout through the real binary, plain and with -i (every instruction is then preceded by a step message): line numbers and line texts of all messages are matched. (c) diagnostics: for {} token positions: '@' inserted before the token, the token replaced by ')', the file truncated after the token; plus 12 semantic errors at first / middle / last line and 3 data-side errors in all 10 layouts; the position the real Preprocessor reports is cross-checked against the generator-known token offset, and the binary's message must cite that line, column (0- or 1-based, but the same base everywhere) and line text", ts.len(), "all");
+    cov.bounds = json!({"templates": ts.len(), "library_runs": lib_work.len(), "catalog_shapes_with_source_map_in_step": shapes_checked.load(Ordering::Relaxed), "source_map_entries_checked": st.lib_entries.load(Ordering::Relaxed), "message_runs": cli_work.len(), "messages_checked": st.cli_msgs.load(Ordering::Relaxed), "diagnostic_runs": diag.len(), "syntax_diagnostics": total, "reported_exactly_at_corrupted_token": exact, "reported_later_than_corrupted_token": st.diag_later.load(Ordering::Relaxed), "corruptions_leaving_a_valid_program": st.still_valid.load(Ordering::Relaxed), "tier": tier.name()});
     cov.assumptions = common_assumptions();
     cov.assumptions.push("line text in messages is compared modulo the ';' comment and surrounding white space; line numbers exactly; columns 0- or 1-based".into());
     cov.assumptions.push("a duplicate definition may be reported at the first or at the repeated definition".into());
